@@ -471,6 +471,11 @@ def _init_htpasswd_context():
     preferred = schemes[:3] + ["apr_md5_crypt"] + schemes
     schemes = sorted(set(schemes), key=preferred.index)
 
+    # plaintext accepts any string, so it has to come after the host's crypt() schemes
+    # appended above -- otherwise it claims (and mis-verifies) their hashes.
+    schemes.remove("plaintext")
+    schemes.append("plaintext")
+
     # create context object
     return CryptContext(
         schemes=schemes,
